@@ -13,7 +13,7 @@
    Graphs are kept as (blocks, edges) lists in INSERTION order; the static-view sorting is irrelevant for
    every observation made on the result (find_block / find_edge / filter by head). *)
 From Coq Require Import ZArith List Bool NArith.
-From Falcon Require Import Base.Res IL.Const IL.Expr IL.Func.
+From Falcon Require Import Base.Res IL.Const IL.Expr IL.Func Cfg.SOps.
 Import ListNotations.
 Local Open Scope Z_scope.
 
@@ -183,3 +183,23 @@ Definition recover (tb : tbtable) (fa : Z) (manual : list medge_m) : res func :=
   if gs_has_block g2 (fst en)
   then Ok (mkfunc fa (mkcfg (gs_blocks g2) (gs_edges g2) (gs_next g2) (Some (fst en)) None) None)
   else Err ECustom.
+
+(* ---------------- the final merge (C15's static model of ControlFlowGraph::merge) ---------------- *)
+(* the static view keeps edges in BTreeMap<(head, tail)> order *)
+Definition edge_le (a b : edge) : bool := (e_head a <? e_head b) || ((e_head a =? e_head b) && (e_tail a <=? e_tail b)).
+Fixpoint insert_sorted (e : edge) (l : list edge) : list edge :=
+  match l with
+  | [] => [e]
+  | x :: t => if edge_le e x then e :: l else x :: insert_sorted e t
+  end.
+Definition sort_edges (l : list edge) : list edge := fold_right insert_sorted [] l.
+
+(* translate_function_extended, complete *)
+Definition recover_full (tb : tbtable) (fa : Z) (manual : list medge_m) : res func :=
+  f <- recover tb fa manual ;;
+  let g := f_cfg f in
+  match s_merge (mkcfg (g_blocks g) (sort_edges (g_edges g)) (g_next_index g) (g_entry g) (g_exit g)) with
+  | (g', Ok _) => Ok (mkfunc fa g' None)
+  | (_, Err e) => Err e
+  | (_, Panic) => Panic
+  end.
